@@ -242,10 +242,21 @@ def resolve_loop(g, continue_cmd, abort_cmd, allow_abort=True, strategy=None, mu
         yield g.git(*abort_cmd, aborts=True)
 
 
-def fam_feature_branch(g, n_commits, path, name="feat", rewritten=False):
+def fam_feature_branch(g, n_commits, path, name="feat", rewritten=False, distinct_files=False):
     yield g.git("checkout", "-q", "-b", name)
-    for _ in range(n_commits):
-        for op in g.some_edits(n_ai=(1, 2), n_human=(0, 1), path=path if g.rng.random() < 0.7 else None,
+    own = []
+    if distinct_files:
+        # every commit of the branch works in a file of its own (what squash / fixup / reorder then fold together)
+        own = [f for f in g.worktree_files() if f != path]
+        g.rng.shuffle(own)
+        own = [path] + own
+        g.ex.probe("feature.distinct_files")
+    for k in range(n_commits):
+        if distinct_files and k >= len(own):
+            yield g.ai_edit(new_file=True)
+            own.append(None)
+        cpath = (own[k] if distinct_files and own[k] else (path if g.rng.random() < 0.7 else None))
+        for op in g.some_edits(n_ai=(1, 2), n_human=(0, 1), path=cpath,
                                human_kinds=(["insert", "delete", "replace", "reindent", "append"]
                                             if rewritten and g.gated("rebase_human_intraline_edit") else None)):
             yield op
@@ -264,7 +275,8 @@ def fam_rebase(g, kind="plain"):
     if after_abort:
         # variant: the first attempt stops on a conflict and is aborted, the second one is seen through
         pos, n = "conflict", 1
-    yield from fam_feature_branch(g, n, path, rewritten=True)
+    yield from fam_feature_branch(g, n, path, rewritten=True,
+                                  distinct_files=(kind == "interactive" and n > 1 and rng.random() < 0.4))
     yield g.git("checkout", "-q", base_branch)
     for _ in range(rng.randint(1, 2)):
         yield upstream_change(g, pos, path)
@@ -440,6 +452,14 @@ def fam_reset_recommit(g):
         yield from g.commit_all()
     k = 1 if g.gated("reset_multi_commit") else rng.randint(1, n)
     mode = rng.choice(["--soft", "--mixed"])
+    if rng.random() < 0.4:
+        # uncommitted AI work is lying around when the reset happens (often in a file the un-done commits did not touch)
+        g.ex.probe("reset.with_pending_work")
+        yield g.ai_edit(kinds=["insert", "append"], new_file=rng.random() < 0.2)
+    detached = rng.random() < 0.25
+    if detached:
+        g.ex.probe("reset.detached_head")
+        yield g.git("checkout", "-q", "--detach")
     yield g.git("reset", "-q", mode, "HEAD~%d" % k, rewrite=True)
     if rng.random() < 0.35:
         # re-commit in pieces (by file)
@@ -802,8 +822,18 @@ def fam_pull(g):
         yield remote_change(g, pos, path)
     if pending:
         yield from g.some_edits(n_ai=(1, 2), n_human=(0, 1), path=path)
+    via_config = variant in ("rebase", "rebase_autostash") and rng.random() < 0.35
+    if via_config:
+        # the mode comes from the configuration instead of the command line (pull.rebase accepts true / merges /
+        # interactive, rebase.autoStash a boolean)
+        g.ex.probe("pull.rebase_via_config")
+        yield {"op": "raw", "argv": ["config", "pull.rebase", rng.choice(["true", "merges", "merges", "interactive"])], "dt": 1}
+        if variant == "rebase_autostash":
+            yield {"op": "raw", "argv": ["config", "rebase.autoStash", rng.choice(["true", "yes", "on"])], "dt": 1}
     if variant in ("ff_pending", "ff_clean"):
         yield g.git("pull", "-q", *rng.choice([["--ff-only"], [], ["--ff"]]), "origin", "main", rewrite=True)
+    elif via_config:
+        yield g.git("pull", "-q", "origin", "main", rewrite=True, env={"GIT_SEQUENCE_EDITOR": "true", "GIT_EDITOR": "true"})
     elif variant == "rebase":
         yield g.git("pull", "-q", "--rebase", "origin", "main", rewrite=True)
     elif variant == "rebase_autostash":
@@ -1071,6 +1101,66 @@ def fam_two_file_report(g):
     yield from g.commit_all()
 
 
+def fam_worktree_rebases(g):
+    """two linked worktrees of one repository: a rebase in the main worktree stops on a conflict; while it is
+    stopped, the other worktree rebases its own branch (or commits); then the first rebase is resolved and continued"""
+    rng = g.rng
+    files = [f for f in g.worktree_files() if len(split_lines(g.w.read(g.repo, f) or "")) >= 2]
+    if not files:
+        yield g.human_edit(new_file=True, max_block=4)
+        yield from g.commit_all()
+        files = [f for f in g.worktree_files() if len(split_lines(g.w.read(g.repo, f) or "")) >= 1]
+    path = rng.choice(files)
+    base = g.branch()
+    lines = split_lines(g.w.read(g.repo, path))
+    i = rng.randint(0, len(lines) - 1)
+    s1 = g.pick_session()
+    yield g.git("checkout", "-q", "-b", "feat")
+    ai_lines = lines[:i] + [gen.new_line(rng, g.ex) for _ in range(rng.randint(1, 3))] + lines[i + 1:]
+    edited = {path: gen.join_lines(ai_lines)}
+    # the same commit also carries AI lines far away from the line that will conflict (another file)
+    extra = "wt/extra%d.txt" % g.ex.fresh_id()
+    edited[extra] = gen.join_lines([gen.new_line(rng, g.ex) for _ in range(rng.randint(2, 4))])
+    yield {"op": "edit", "who": s1, "files": edited, "dt": g.dt(), "dt2": 20,
+           "desc": {"kind": "replace", "pos": "any", "who": "ai", "at": i}}
+    yield from g.commit_all()
+    if rng.random() < 0.5 and not g.gated("rebase_conflict_multi_commit"):
+        yield g.ai_edit(kinds=["insert", "append"])
+        yield from g.commit_all()
+    # the other worktree, on its own branch, with AI work in another file
+    yield {"op": "add_worktree", "name": "wt2", "branch": "side", "start": base, "dt": g.dt()}
+    g2 = G(rng, g.ex, g.cfg, repo_name="wt2")
+    others = [f for f in g2.worktree_files() if f != path]
+    yield g2.ai_edit(path=rng.choice(others), kinds=["insert", "append"]) if others else g2.ai_edit(new_file=True)
+    yield from g2.commit_all()
+    # upstream: a person rewrites the same line on the base branch (the rebase of feat will stop there)
+    yield g.git("checkout", "-q", base)
+    hum = lines[:i] + [gen.new_line(rng, g.ex)] + lines[i + 1:]
+    yield {"op": "edit", "who": HUMAN, "files": {path: gen.join_lines(hum)}, "dt": g.dt(), "pre_ckpt": True,
+           "desc": {"kind": "replace", "pos": "any", "who": HUMAN, "at": i}}
+    yield from g.commit_all()
+    yield g.git("checkout", "-q", "feat")
+    yield g.git("rebase", base, rewrite=True)
+    stopped = g.in_progress() == "rebase"
+    if stopped:
+        g.ex.probe("worktrees.rebase_stopped")
+    what = rng.choice(["rebase", "rebase", "commit", "rebase_then_commit"])
+    g.ex.probe("worktrees.other." + what)
+    if what.startswith("rebase"):
+        yield g2.git("rebase", base, rewrite=True)
+        if g2.in_progress():
+            yield g2.git("rebase", "--abort", aborts=True)
+    if what != "rebase":
+        yield g2.ai_edit(kinds=["insert", "append"])
+        yield from g2.commit_all()
+    if stopped:
+        yield from resolve_loop(g, ["rebase", "--continue"], ["rebase", "--abort"], allow_abort=False,
+                                strategy=rng.choice(["ours", "theirs"]))
+    if not g.in_progress():
+        yield g.ai_edit(kinds=["insert", "append"])
+        yield from g.commit_all()
+
+
 FAMILIES = {
     "human_overwrites_ai": fam_human_overwrites_ai,
     "destructive": fam_destructive,
@@ -1097,6 +1187,7 @@ FAMILIES = {
     "ci_rewrite": fam_ci_rewrite,
     "partial_amend": fam_partial_amend,
     "two_file_report": fam_two_file_report,
+    "worktree_rebases": fam_worktree_rebases,
 }
 
 # families whose outcome no property promises two-sidedly (a reverted-and-restored or renamed line)
